@@ -456,8 +456,24 @@ func oracleC15(res *Result, c *Case) {
 		// exceptions: one per layer with a stack, outermost first
 		var withStacks []error
 		for _, l := range layers {
-			if withstack.GetReportableStackTrace(l) != nil {
+			// a local layer has a stack iff it captured at least one frame (a depth beyond the
+			// top of the goroutine captures none); a received one iff its printed stack parses
+			if sp, ok := l.(errbase.StackTraceProvider); ok {
+				if len(sp.StackTrace()) > 0 {
+					withStacks = append(withStacks, l)
+				}
+			} else if withstack.GetReportableStackTrace(l) != nil {
 				withStacks = append(withStacks, l)
+			}
+		}
+		for i, x := range ev.Exception {
+			if x.Stacktrace == nil {
+				continue
+			}
+			for j, f := range x.Stacktrace.Frames {
+				if f.Function == "" && f.Filename == "" && f.AbsPath == "" && f.Lineno == 0 {
+					res.fail(c, "C15", fmt.Sprintf("%s: exception %d frame %d is blank (no function, file or line)", st.Name, i, j), "C15:blank-frame")
+				}
 			}
 		}
 		dom := string(errors.GetDomain(e))
